@@ -18,6 +18,10 @@ import (
 
 type c15T struct{ n int }
 
+// named types with an unnamed counterpart: assignable both ways although the types differ
+type c15Ints []int
+type c15Fn func()
+
 var c15Err = errors.New("c15 error value")
 var c15Ptr = &c15T{7}
 
@@ -35,7 +39,19 @@ func c15MakeTarget(kind, capacity int) *c15Target {
 		v := reflect.ValueOf(ch)
 		return &c15Target{target: target, elem: v.Type().Elem(), recv: v, cap: capacity, desc: fmt.Sprintf("%s(cap %d)", desc, capacity)}
 	}
-	switch kind % 6 {
+	switch kind % 10 {
+	case 6:
+		ch := make(chan c15Ints, capacity)
+		return mk(ch, ch, "chan c15Ints")
+	case 7:
+		ch := make(chan []int, capacity)
+		return mk(ch, ch, "chan []int")
+	case 8:
+		ch := make(chan c15Fn, capacity)
+		return mk(ch, ch, "chan c15Fn")
+	case 9:
+		ch := make(chan (<-chan int), capacity)
+		return mk(ch, ch, "chan <-chan int")
 	case 0:
 		ch := make(chan int, capacity)
 		return mk(ch, ch, "chan int")
@@ -57,7 +73,8 @@ func c15MakeTarget(kind, capacity int) *c15Target {
 	}
 }
 
-var c15Values = []interface{}{7, "s", c15Ptr, c15Err, nil, 3.5, (*c15T)(nil)}
+var c15Chan = make(chan int)
+var c15Values = []interface{}{7, "s", c15Ptr, c15Err, nil, 3.5, (*c15T)(nil), []int{1, 2}, c15Ints{3}, func() {}, c15Chan}
 
 type c15Sub struct {
 	id           int
@@ -117,7 +134,7 @@ func c15Round(c *core.Ctx) {
 		if s.ready == "buffered" {
 			capacity = 1
 		}
-		s.tgt = c15MakeTarget(c.Rng.IntN(6), capacity)
+		s.tgt = c15MakeTarget(c.Rng.IntN(10), capacity)
 		switch c.Rng.IntN(4) {
 		case 0: // no context
 		case 1:
@@ -286,7 +303,7 @@ func c15Round(c *core.Ctx) {
 		}
 		if el && got == 1 {
 			want := asType(s.tgt.elem, value)
-			if !reflect.DeepEqual(s.receipts[0], want.Interface()) && !(value == nil && isNilInterface(s.receipts[0])) {
+			if !same(reflect.ValueOf(s.receipts[0]), reflect.ValueOf(want.Interface())) && !reflect.DeepEqual(s.receipts[0], want.Interface()) && !(value == nil && isNilInterface(s.receipts[0])) {
 				c.Violate("wrong-value", "%v received %v, want %s; %s", s, s.receipts[0], descValue(value), desc)
 			}
 		}
